@@ -30,8 +30,11 @@ pub(crate) fn parse_ifdata(
     if let Some(token) = parser.peek_token() {
         if token.ttype != A2lTokenType::End {
             // try parsing according to the spec provided by the user of the crate in the a2ml_specification! macro
+            // the built-in specification comes first; of the A2ML blocks of the file the most recent one,
+            // i.e. the A2ML block of the current MODULE, takes precedence over those of earlier modules
             let spec_list = std::mem::take(&mut parser.a2mlspec);
-            for a2mlspec in &spec_list {
+            let (builtin_specs, file_specs) = spec_list.split_at(parser.a2mlspec_builtin);
+            for a2mlspec in builtin_specs.iter().chain(file_specs.iter().rev()) {
                 if let Some(ifdata_items) = parse_ifdata_from_spec(parser, context, a2mlspec) {
                     result = Some(ifdata_items);
                     valid = true;
